@@ -14,6 +14,7 @@ package main
 //   "" fresh empty buffer   E emptied buffer (x[:0])   N nil/absent buffer   ? unknown
 
 import (
+	"os"
 	"fmt"
 	"go/token"
 	"go/types"
@@ -504,6 +505,24 @@ type a2run struct {
 	suffix  []string // per parameter
 	exits   map[string]a2exit
 	public  bool
+	dynVals map[string]ssa.Value // "dyn:v:<name>" → the interface value the fact is about
+}
+
+// dynKey: configuration cell holding what is known about the dynamic type of the interface
+// value v (a '|'-separated set of type strings): a type switch in a caller followed by a second
+// switch on the same value in a helper must not be treated as if the helper's switch could fall
+// through all its cases.
+func (r *a2run) dynKey(v ssa.Value) string {
+	v = stripChange(v)
+	if p, ok := v.(*ssa.Parameter); ok {
+		return "dyn:p:" + p.Name()
+	}
+	k := "dyn:v:" + v.Name()
+	if r.dynVals == nil {
+		r.dynVals = map[string]ssa.Value{}
+	}
+	r.dynVals[k] = v
+	return k
 }
 
 func (a *a2) trackedParams(f *ssa.Function) ([]int, []string) {
@@ -552,6 +571,10 @@ func (r *a2run) exec(entry []string) {
 			c0.vals[p] = entry[i]
 		case cPtr:
 			c0.cells["p:"+p.Name()+r.suffix[i]] = entry[i]
+		default:
+			if i < len(entry) && strings.HasPrefix(entry[i], "dyn=") {
+				c0.cells[r.dynKey(p)] = strings.TrimPrefix(entry[i], "dyn=")
+			}
 		}
 	}
 	seen := map[*ssa.BasicBlock]map[string]bool{}
@@ -805,6 +828,13 @@ func (r *a2run) edge(c *a2cfg, b *ssa.BasicBlock, si int, s *ssa.BasicBlock) *a2
 	}
 	out := newCfg()
 	for k, v := range nc.cells {
+		if strings.HasPrefix(k, "dyn:v:") {
+			if dv, ok := r.dynVals[k]; ok {
+				if in, isIn := dv.(ssa.Instruction); isIn && in.Block() != nil && (in.Block() == s || !in.Block().Dominates(s)) {
+					continue
+				}
+			}
+		}
 		out.cells[k] = v
 	}
 	for k, v := range nc.flags {
@@ -932,6 +962,54 @@ func (r *a2run) refine(c *a2cfg, ifi *ssa.If, pol bool) (bool, *a2cfg) {
 			continue
 		}
 		break
+	}
+	if ex, isEx := cond.(*ssa.Extract); isEx && ex.Index == 1 {
+		if ta, isTA := ex.Tuple.(*ssa.TypeAssert); isTA && ta.CommaOk {
+			if _, isIface := ta.X.Type().Underlying().(*types.Interface); isIface {
+				key := r.dynKey(ta.X)
+				t := types.TypeString(ta.AssertedType, nil)
+				have := c.cells[key]
+				var set []string
+				if have != "" {
+					set = strings.Split(have, "|")
+				}
+				in := false
+				for _, x := range set {
+					if x == t {
+						in = true
+					}
+				}
+				_, assertsIface := ta.AssertedType.Underlying().(*types.Interface)
+				if pol {
+					if have != "" && !in && !assertsIface {
+						return false, nil // the value is known to have another concrete type
+					}
+					if assertsIface || have == "" {
+						// facts are only refined, never started here: they originate at call sites
+						// (knownDynTypes), which keeps the number of configurations small
+						return true, nil
+					}
+					nc := c.clone()
+					nc.cells[key] = t
+					return true, nc
+				}
+				if have != "" && in {
+					var rest []string
+					for _, x := range set {
+						if x != t {
+							rest = append(rest, x)
+						}
+					}
+					if len(rest) == 0 {
+						return false, nil // it has exactly this type: the assertion cannot fail
+					}
+					nc := c.clone()
+					nc.cells[key] = strings.Join(rest, "|")
+					return true, nc
+				}
+				return true, nil
+			}
+		}
 	}
 	bo, ok := cond.(*ssa.BinOp)
 	if !ok {
@@ -1483,6 +1561,19 @@ func (r *a2run) doSummaryCall(c *a2cfg, call *ssa.Call, sc *ssa.Function) []*a2c
 					next = append(next, partial{fk.c, e})
 				}
 			default:
+				// what the caller knows about the dynamic type of an interface argument
+				if _, isIface := arg.Type().Underlying().(*types.Interface); isIface {
+					set := pt.c.cells[r.dynKey(arg)]
+					if set == "" {
+						set = knownDynTypes(r.f, call, arg)
+					}
+					if set != "" {
+						e := append([]string{}, pt.entry...)
+						e[i] = "dyn=" + set
+						next = append(next, partial{pt.c, e})
+						continue
+					}
+				}
 				next = append(next, pt)
 			}
 		}
@@ -1512,4 +1603,83 @@ func (r *a2run) doSummaryCall(c *a2cfg, call *ssa.Call, sc *ssa.Function) []*a2c
 		}
 	}
 	return out
+}
+
+// knownDynTypes: the call executes only after one of the comma-ok assertions `arg.(T_i)` of its
+// function succeeded (deleting all their success edges disconnects the call): the dynamic type of
+// arg is then one of the T_i whose success edge can reach the call.  "" if nothing is known.
+func knownDynTypes(f *ssa.Function, call *ssa.Call, arg ssa.Value) string {
+	arg = stripChange(arg)
+	type as struct {
+		t    string
+		blk  *ssa.BasicBlock
+		succ int
+	}
+	var asserts []as
+	for _, b := range f.Blocks {
+		iff, ok := b.Instrs[len(b.Instrs)-1].(*ssa.If)
+		if !ok {
+			continue
+		}
+		cond, pol := iff.Cond, true
+		if u, isU := cond.(*ssa.UnOp); isU && u.Op == token.NOT {
+			cond, pol = u.X, false
+		}
+		ex, ok := cond.(*ssa.Extract)
+		if !ok || ex.Index != 1 {
+			continue
+		}
+		ta, ok := ex.Tuple.(*ssa.TypeAssert)
+		if !ok || !ta.CommaOk || stripChange(ta.X) != arg {
+			continue
+		}
+		if _, isI := ta.AssertedType.Underlying().(*types.Interface); isI {
+			continue
+		}
+		si := 0
+		if !pol {
+			si = 1
+		}
+		asserts = append(asserts, as{types.TypeString(ta.AssertedType, nil), b, si})
+	}
+	if len(asserts) == 0 {
+		return ""
+	}
+	target := func(in ssa.Instruction) bool { return in == ssa.Instruction(call) }
+	blocked := func(b *ssa.BasicBlock, si int) bool {
+		for _, a := range asserts {
+			if a.blk == b && a.succ == si {
+				return false
+			}
+		}
+		return true
+	}
+	if reach, _ := pathExists(f, nil, target, nil, blocked); reach {
+		return "" // reachable without any of the assertions having succeeded
+	}
+	var set []string
+	for _, a := range asserts {
+		t := a.blk.Succs[a.succ]
+		if len(t.Instrs) == 0 {
+			continue
+		}
+		// can the call be reached from this success edge?
+		if t == call.Block() {
+			set = append(set, a.t)
+			continue
+		}
+		// … without re-evaluating arg on the way (the next loop iteration is another value)
+		redef := func(in ssa.Instruction) bool {
+			v, isV := in.(ssa.Value)
+			return isV && v == arg
+		}
+		if ok, _ := pathExists(f, t.Instrs[0], target, redef, nil); ok || target(t.Instrs[0]) {
+			set = append(set, a.t)
+		}
+	}
+	sort.Strings(set)
+	if os.Getenv("ZL_DEBUG_DYN") != "" {
+		fmt.Fprintf(os.Stderr, "knownDynTypes %s call %s arg %s: %d asserts -> %v\n", f.Name(), call, arg.Name(), len(asserts), set)
+	}
+	return strings.Join(set, "|")
 }
